@@ -13,7 +13,8 @@
    34 is the double quote, 39 the single quote, 47 the slash, 61 the equals sign. *)
 From Coq Require Import List NArith ZArith Bool Permutation.
 From JV Require Import Msg CliModel CliLemmas CliInv CliProofs CliHist CliSend CliFed CliNoStop CliSendLog SameResultsCli SameResultsBridge.
-From JV Require Import Bytes QStr Query QueryProofs HttpChan HttpChanProofs SameResults.
+From JV Require Json Wire.
+From JV Require Import Bytes QStr Query QueryProofs GetterMore HttpChan HttpChanProofs SameResults.
 Import ListNotations.
 Local Open Scope N_scope.
 
@@ -124,6 +125,69 @@ Theorem c19_getter_status_codes : forall p srv,
   In (fst (getter_status p srv)) [200; 400; 404; 500]%Z.
 Proof. exact getter_status_codes. Qed.
 Print Assumptions c19_getter_status_codes.
+
+(* THE BYTES the Getter writes (http/GetterMore.v).  [getter_reply p perr o srv]: what writeJSON sends for the
+   parser result p (perr = err.Error() of the parser's error), the call result [srv m ps] WITH its payload
+   (CROk result | CRErr error object | CRFail (json.Marshal of any other Go error value)): [HJson st bits] = status
+   st, Content-Type application/json, body bits = json.Marshal of the value ({"code":..,"message":..,"data":..} for
+   an error: Wire.marshal_error; the compacted result: Json.compact) or [HFallback] = writeJSON's fallback when
+   json.Marshal fails (500, text/plain).  [abs_srv srv] forgets the payloads (the call_result of c19_getter_status).
+
+   Status, over all inputs: whenever JSON is written its status is the one c19_getter_status(_any_parser) gives,
+   and the bytes render that abstract body. *)
+Theorem c19_getter_bytes_status : forall p perr o srv st bits,
+  getter_reply p perr o srv = HJson st bits ->
+  st = fst (getter_status p (abs_srv srv)) /\ renders (snd (getter_status p (abs_srv srv))) bits /\ In st [200; 400; 404; 500]%Z.
+Proof. exact getter_reply_refines. Qed.
+Print Assumptions c19_getter_bytes_status.
+
+(* ALWAYS VALID JSON, for every parser result and every call result.  [srv_json srv]: compaction of a result
+   yields JSON; the data of an error object are JSON that fits one container deep (they arrived two deep in a
+   response record); json.Marshal of another error value yields JSON (encoding/json's contract).
+   [Json.valid] = json.Valid. *)
+Theorem c19_getter_always_valid_json : forall p perr o srv st bits,
+  srv_json srv -> (forall t, o = Some t -> Json.valid t = true) ->
+  getter_reply p perr o srv = HJson st bits -> Json.valid bits = true.
+Proof. exact getter_reply_valid. Qed.
+Print Assumptions c19_getter_always_valid_json.
+
+(* ... and the text/plain fallback is unreachable when every value to write marshals ([srv_marshals]: results and
+   error data are JSON, other errors marshal) and the parameters were marshalable (always, for ParseQuery/ParseBasic) *)
+Theorem c19_getter_no_fallback : forall p perr o srv,
+  srv_marshals srv -> (match p with PROk _ ps => params_marshalable ps = true | PRErr => True end) ->
+  exists st bits, getter_reply p perr o srv = HJson st bits.
+Proof. exact getter_reply_no_fallback. Qed.
+Print Assumptions c19_getter_no_fallback.
+
+(* per status, for Getter + ParseQuery: 400 + the ParseError object carrying the parser's message / 200 + the
+   compacted result / 404 or 500 + the error object / 500 + the marshalled other error; each valid JSON *)
+Theorem c19_getter_bytes_rules : forall r perr o srv,
+  srv_json srv -> srv_marshals srv ->
+  match parse_query r with
+  | PRErr => exists b, getter_reply (parse_query r) perr o srv = HJson 400%Z b /\ Json.valid b = true /\
+                       Wire.unmarshal_error b = (Some {| we_code := (-32700)%Z; we_msg := readback perr; we_data := [] |}, true)
+  | PROk m ps =>
+    match srv m ps with
+    | CROk res => exists b, getter_reply (parse_query r) perr o srv = HJson 200%Z b /\ Json.valid b = true /\ Json.compact res = Some b
+    | CRErr e => exists b, getter_reply (parse_query r) perr o srv = HJson (if (we_code e =? -32601)%Z then 404 else 500)%Z b /\
+                           Json.valid b = true /\ Wire.marshal_error e = Some b
+    | CRFail t => exists b, getter_reply (parse_query r) perr o srv = HJson 500%Z b /\ Json.valid b = true /\ t = Some b
+    end
+  end.
+Proof. exact getter_bytes_rules. Qed.
+Print Assumptions c19_getter_bytes_rules.
+
+(* every error object whose data fit is valid JSON; the 400 body needs no hypothesis at all *)
+Theorem c19_error_object_valid_json : forall e b,
+  data_fits e -> Wire.marshal_error e = Some b -> Json.valid b = true.
+Proof. exact marshal_error_valid. Qed.
+Print Assumptions c19_error_object_valid_json.
+
+Theorem c19_getter_400_body : forall perr,
+  exists b, Wire.marshal_error (parse_error_obj perr) = Some b /\ Json.valid b = true /\
+    Wire.unmarshal_error b = (Some {| we_code := ParseError; we_msg := readback perr; we_data := [] |}, true).
+Proof. exact parse_error_body. Qed.
+Print Assumptions c19_getter_400_body.
 
 Local Close Scope N_scope.
 
